@@ -1,0 +1,25 @@
+//go:build verif
+
+package hermes
+
+// verification shims for the crop-parameter readers (C13, C18): access to the unexported crop
+// fields of CropSharedVars.  Compiled only with -tags verif; adds nothing to the normal build.
+
+// VerifCropLocal mirrors the unexported fields the crop-parameter readers and the override write
+type VerifCropLocal struct {
+	Temptyp int
+	Kc      [10]float64
+	Kcini   float64
+	Tendsum float64
+	UseBBCH bool
+}
+
+// VerifGetCropLocal reads them
+func VerifGetCropLocal(l *CropSharedVars) VerifCropLocal {
+	return VerifCropLocal{Temptyp: l.temptyp, Kc: l.kc, Kcini: l.kcini, Tendsum: l.tendsum, UseBBCH: l.useBBCH}
+}
+
+// VerifSetCropLocal writes them (prior state of a read)
+func VerifSetCropLocal(l *CropSharedVars, v VerifCropLocal) {
+	l.temptyp, l.kc, l.kcini, l.tendsum, l.useBBCH = v.Temptyp, v.Kc, v.Kcini, v.Tendsum, v.UseBBCH
+}
